@@ -171,7 +171,7 @@ def confirm_replay(binp, replay_path, kind, unit, times=3):
 
 
 def write_replay(prop, unit, f, tag):
-    d = os.path.join(VERIF, 'replay', prop); os.makedirs(d, exist_ok=True)
+    d = os.path.join(os.environ.get('VERIF_FOUND_DIR', os.path.join(VERIF, 'found')), prop); os.makedirs(d, exist_ok=True)
     body = dict(property=prop, unit=unit['name'], prop=f.get('prop'), kind=f.get('kind'), detail=f.get('detail', '')[:2000], desc=f.get('desc', '')[:2000], expect='pass')
     if 'seq' in f: body['seq'] = f['seq']
     if 'sweep' in f: body['sweep'] = f['sweep']
@@ -207,7 +207,7 @@ def check_property(pid, tier, seed, replay_only=None):
         log(str(e)); log('check %s: harness does not build against this tree' % pid); return 2
     Builder.prune()
     unit_by_name = {u['name']: u for u in all_units}
-    violations = []; known_hit = {}; notes = []
+    violations = []; known_hit = {}; notes = []; seen_kinds = set()
     workdir = os.path.join(builder.dir, 'run-%s-%s-%d' % (pid, tier, os.getpid())); os.makedirs(workdir, exist_ok=True)
 
     def report_failure(unit, f, confirmed_path=None):
@@ -215,9 +215,12 @@ def check_property(pid, tier, seed, replay_only=None):
         if k is not None:
             known_hit.setdefault(k['id'], k); return
         tmp = os.path.join(workdir, 'cand-%d.json' % len(os.listdir(workdir)))
+        dk = (unit['name'], f.get('prop'), f.get('kind'))
+        if dk in seen_kinds: return          # one report per (unit, property function, failure kind)
+        seen_kinds.add(dk)
         body = dict(prop=f.get('prop'), kind=f.get('kind'))
         if 'seq' in f: body['seq'] = f['seq']
-        if 'sweep' in f: body['sweep'] = f['sweep']
+        if 'sweep' in f: body['sweep'] = f['sweep']; body['desc'] = f.get('desc', '')
         with open(tmp, 'w') as fo: json.dump(body, fo)
         if f.get('confirmed') or confirm_replay(bins[unit['name']], tmp, f.get('kind'), unit):
             p = write_replay(pid, unit, f, 'new')
